@@ -660,18 +660,30 @@ func main() {
 						}
 						for j, id := range ids {
 							row, ok := rids[id]
+							// "stored correctly or rejected" is stated for unusual column names and for type
+							// changes of a column (inside a request or between the requests of the sequence);
+							// elsewhere a 2xx whose rows are not read back is recorded, not judged (C03's subject)
+							judged := r.Name == "empty" || r.Name == "underscore" || r.Name == "reserved" || r.Typ == "mixed"
+							for k2, q := range sq.Reqs {
+								if k2 != i && q.Name == r.Name && q.Typ != r.Typ {
+									judged = true
+								}
+							}
 							if !ok {
-								if r.Ep == "mpbatch" && len(sr.Rows) == 0 {
+								switch {
+								case r.Ep == "mpbatch" && len(sr.Rows) == 0:
 									// decodeMapPayload logs "Failed to decode batch item" and continues: 204, nothing stored
-									addV("accepted-rows-not-stored:mpbatch:undecodable-batch-item-skipped-silently", wit(map[string]interface{}{"request": i + 1, "rid": id, "status": st}))
-								} else if sr.FlushErr != "" {
+									note("accepted-batch-with-undecodable-item-stored-nothing:"+r.Name+":"+r.Typ, wit(map[string]interface{}{"request": i + 1, "status": st}))
+								case !judged:
+									note("accepted-rows-not-read-back(not judged):"+r.Ep+":"+r.Name+":"+r.Typ, wit(map[string]interface{}{"request": i + 1, "rid": id, "status": st}))
+								case sr.FlushErr != "":
 									addV("accepted-rows-not-stored:flush-error:"+r.Ep+":"+r.Name+":"+r.Typ, wit(map[string]interface{}{"request": i + 1, "rid": id, "flush_err": sr.FlushErr}))
-								} else {
+								default:
 									addV("accepted-rows-not-stored:"+r.Ep+":"+r.Name+":"+r.Typ, wit(map[string]interface{}{"request": i + 1, "rid": id, "status": st}))
 								}
 								continue
 							}
-							if j < 2 && r.Name == "plain" {
+							if j < 2 && r.Name == "plain" && judged {
 								want := val(r.Typ, j)
 								if strings.HasPrefix(r.Ep, "lp") && r.Typ == "nil" {
 									want = nil
